@@ -27,6 +27,10 @@ CLAIMED["C16"] = ("DESIGN.md#c16", "Lean theorems on proleptic ordinals for ever
          "Lean 4 proof over weekday-navigation model + differential correspondence run")
 CLAIMED["C07"] = ("DESIGN.md#c07", "Lean theorems for both parser backends over a recursive-descent model on List Char: parse(render(v)) = v for calendar/ordinal/week dates (years 1..9999), times, date-times with fractions 1-9 digits and offsets up to +-23:59, impossible day/ordinal/week/weekday rejected, exact=True narrowest type, parse inverts isoformat/str/to_iso8601/rfc3339 (atom/w3c to the second); ordinal/week conversion proved through the regenerated helpers and tables; correspondence 6.8x10^5 strings x 2 backends (thorough: every date 1583..9999 x 6 forms); oracle = the value the string was rendered from",
          "Lean 4 proof over parser model + regenerated calendar helpers, differential correspondence run")
+CLAIMED["C14"] = ("DESIGN.md#c14", "Lean theorems per type: observe(rebuild(reduce v)) = observe v and observe(deepcopy v) = observe v for DateTime (fields, tzinfo, fold when it matters, instant), Duration (all components incl. years/months/weeks, sign), Interval (endpoints, invert, absolute, length), Time, Date, Timezone, FixedTimezone, on a model of what __reduce_ex__/__deepcopy__/_getstate/__getinitargs__ carry; counterexamples for the pinned code; correspondence + oracle over pickle protocols 0..5, copy, deepcopy on every zone's overlaps/gaps and every subset of Duration arguments",
+         "Lean 4 proof over reduce/rebuild model + differential correspondence run")
+CLAIMED["C11"] = ("DESIGN.md#c11", "Lean theorems for the overridden methods (astimezone = inTz, replace = create, subtraction, comparison table: different tzinfo objects order by instant, same object by wall clock as datetime defines; partial outside the wall-order region) + differential testing of every stdlib accessor/operator against the native object with the same fields and tzinfo (reported as such); known findings F12b/F21/F22 where 'same as native' and 'instants' conflict",
+         "Lean 4 proof over override models + differential run against native classes")
 NA = {}
 def main():
     props = [json.loads(l) for l in open(os.path.join(ROOT, "properties.jsonl"))]
